@@ -179,3 +179,14 @@ package soyhtml
 //@   loop 0
 //@     invariant !werr
 //@     noterm
+
+// ---------------------------------------------------------------------------
+// C06: the recover handler of the render entry points must itself be unable
+// to panic, whatever state the interpreter was in when the panic was raised,
+// and must assign a non-nil error whenever it recovered something.
+//@ func (*state).errRecover
+//@   props C06
+//@   handler
+//@   ghost recd bool = false
+//@   at call recover#0 after set recd = res != nil
+//@   ensures[assigns-error] recd ==> *errp != nil
